@@ -40,6 +40,7 @@ type schedOut struct {
 	RaceBuild     bool                `json:"race_build"`
 	Ties          int                 `json:"maporder_ties"`
 	FreeformLines int                 `json:"freeform_lines"`
+	SharedChanged []string            `json:"shared_values_changed"`
 	SwitchPerK    uint32              `json:"switch_per_k"`
 	EvalPerK      uint32              `json:"eval_per_k"`
 }
@@ -516,6 +517,10 @@ func (c *c20Check) Run(seed, run uint64, rec []uint32, st Stats, only *Viol) []V
 	// (4) no task panics; results equal the solo results
 	for _, p := range out.Panics {
 		mk("C20/panic/task", map[string]interface{}{"panic": "none"}, map[string]interface{}{"panic": p})
+		break
+	}
+	for _, p := range out.SharedChanged {
+		mk("C20/shared-value-changed", map[string]interface{}{"shared values": "unchanged by concurrent evaluations (they are immutable)"}, map[string]interface{}{"changed": p})
 		break
 	}
 	for _, p := range out.Isolation {
